@@ -19,6 +19,9 @@ pub enum Op {
     Extend(Vec<SymbolSize>),
     /// encode n ASCII-only characters with the current list
     Probe(usize),
+    /// encode n digits (ASCII only: ceil(n/2) codewords) / 3m X12 characters (X12 only: 2m+1 codewords, +1 unlatch unless it fills the symbol)
+    ProbeDigits(usize),
+    ProbeX12(usize),
     Contains(SymbolSize),
 }
 
@@ -79,6 +82,10 @@ pub fn op_cases(tier: &str, seed: u64) -> Vec<Vec<Op>> {
             v.push(Op::Probe((c + rng.below(3)).saturating_sub(1)));
         }
         v.push(Op::Probe(rng.below(1600)));
+        let c = CATALOGUE[rng.below(48)].data;
+        v.push(Op::ProbeDigits((2 * c + rng.below(3)).saturating_sub(1)));
+        let c = CATALOGUE[rng.below(48)].data;
+        v.push(Op::ProbeX12((c + rng.below(3)).saturating_sub(1) / 2));
         v
     };
     // single filters on both base lists, systematic bounds
@@ -193,6 +200,18 @@ pub fn op_case(idx: usize, ops: &[Op]) -> Value {
                     json!({"ev": "Extend", "names": v.iter().map(|s| size_name(*s)).collect::<Vec<_>>()})
                 }
                 Op::Contains(s) => json!({"ev": "Contains", "name": size_name(*s), "res": list.contains(s)}),
+                Op::ProbeDigits(n) | Op::ProbeX12(n) => {
+                    let (data, modes, name) = match op {
+                        Op::ProbeDigits(_) => (vec![b'7'; *n], EncodationType::Ascii, "ProbeDigits"),
+                        _ => (b"A*9".iter().cycle().take(3 * *n).copied().collect::<Vec<u8>>(), EncodationType::X12, "ProbeX12"),
+                    };
+                    let r = DataMatrixBuilder::new().with_encodation_types(modes).with_macros(false).with_symbol_list(list.clone()).encode(&data);
+                    let res = match r {
+                        Ok(d) => json!({"kind": "Ok", "size": size_name(d.size)}),
+                        Err(e) => json!({"kind": "Err", "err": format!("{:?}", e)}),
+                    };
+                    json!({"ev": name, "n": n, "res": res})
+                }
                 Op::Probe(n) => {
                     let data = vec![b'x'; *n];
                     let r = DataMatrixBuilder::new().with_symbol_list(list.clone()).with_encodation_types(EncodationType::Ascii).with_macros(false).encode(&data);
